@@ -265,6 +265,8 @@ def _creator(name, fill):
         elif isinstance(shape, (tuple, list)):
             shape = tuple(int(s) for s in shape)
         if _is_floatish(dtype):
+            if int(np.prod(shape)) == 0:
+                return real(shape, dtype=builtins.float, order=order)  # no cells: keep the real float dtype
             a = np.empty(shape, dtype=object, order=order).view(SA)
             a[...] = 0.0 if fill is None else fill
             return a
